@@ -68,14 +68,28 @@ func CloneRequest(r *Request) *Request {
 		return &clone
 	}
 	buf := new(bytes.Buffer)
-	buf.ReadFrom(r.Body)
+	_, err := buf.ReadFrom(r.Body)
 	r.Body.Close()
 
-	r.Body = io.NopCloser(bytes.NewReader(buf.Bytes()))
-	clone.Body = io.NopCloser(buf)
+	r.Body = replayBody(buf.Bytes(), err)
+	clone.Body = replayBody(buf.Bytes(), err)
 
 	return &clone
 }
+
+// replayBody returns a reader over the bytes read from a request body. When the body could
+// not be read completely, every copy fails with the same error at the same point instead of
+// silently ending there.
+func replayBody(b []byte, err error) io.ReadCloser {
+	if err == nil {
+		return io.NopCloser(bytes.NewReader(b))
+	}
+	return io.NopCloser(io.MultiReader(bytes.NewReader(b), failingReader{err}))
+}
+
+type failingReader struct{ err error }
+
+func (f failingReader) Read([]byte) (int, error) { return 0, f.err }
 
 // CloneRequestHeaders returns a copy of the received request headers
 func CloneRequestHeaders(headers map[string][]string) map[string][]string {
